@@ -14,6 +14,7 @@ import Proofs.GoTieCliEncId
 import Proofs.GoTieCliModes
 import Proofs.GoTieNative
 import Props.C01
+import Proofs.GoTieWitnessA
 namespace AgeModel
 namespace Tie.C10
 
@@ -220,6 +221,15 @@ theorem code_scrypt_wrap_unwrap (P : Prims) (hP : P.Correct) {κ : Type} (E : Go
     rw [hrun, hres]
   · obtain ⟨r, hrun, hcls⟩ := scrypt_unwrap_tie P E.toScryptEnv pw maxWF (wrapScrypt P pw logN salt fk)
     exact ⟨r, hrun, by rw [hcls, Props.C01.scrypt_wrap_unwrap P hP pw salt fk logN maxWF h1 h30 hmax hsalt hfk]⟩
+
+/-- **the assumption structures this file's theorems take are satisfiable** (for a lawful toy primitive suite
+    with the 16-byte tag, where they mention primitives): none of the theorems above is vacuous. The instances are in
+    `Proofs/GoTieWitnessA.lean` / `GoTieWitnessB.lean`. -/
+theorem assumptions_satisfiable :
+    Prims.toy16.Correct ∧ Prims.toy16.aead.NonceSep ∧ Prims.toy16.aead.T = 16 ∧
+    Nonempty (GoTie.NativeEnv Prims.toy16 Bytes) ∧
+    Nonempty (GoTie.ScryptEnv Prims.toy16) :=
+  ⟨Prims.toy16_correct, AEAD.toy16_nonceSep, rfl, ⟨GoTie.NativeEnv.witness⟩, ⟨GoTie.ScryptEnv.witness⟩⟩
 
 end Tie.C10
 end AgeModel
